@@ -132,7 +132,7 @@ Section Calls.
     pose proof (va_umask _ _ Hag) as Hum; pose proof (va_idm _ _ Hag) as Hidm.
 
   Ltac views :=
-    unfold create_dir, create_file, create_symlink, new_meta, win;
+    unfold create_dir, create_file, create_symlink, new_dir_meta, new_meta, new_gid, win;
     rewrite ?(va_osp _ _ Hag), ?(va_osv _ _ Hag), ?(va_user _ _ Hag), ?(va_umask _ _ Hag), ?(va_idm _ _ Hag).
 
   Theorem mkdir_prefix ps perm : okpath ps ->
@@ -152,7 +152,7 @@ Section Calls.
       (destruct fuel as [|fuel]; [reflexivity|]); cbn [mkdir_all_loop];
       rewrite (on_comp_part _ _ _ _ Hsplitp), (on_comp_part _ _ _ _ Hsplit);
       (destruct (alookup str_eqb c (children (f_heap s0) dn)); [reflexivity|]);
-      unfold create_dir, new_meta; rewrite Hosp, Hosv, Hu, Hum.
+      unfold create_dir, new_dir_meta, new_meta, new_gid; rewrite Hosp, Hosv, Hu, Hum.
     - rewrite (@pi_next_step _ (ds ++ done ++ [c]) [] _ Hcs), (@pi_next_step _ (done ++ [c]) [] _ Hps).
       + reflexivity.
       + rewrite Hsplit, <- app_assoc, app_nil_r. reflexivity.
